@@ -1923,6 +1923,8 @@ int GridLocalPolynomial::removeMappedPoints(std::vector<bool> const &pmap){
     }
 
     points = MultiIndexSet(point_kept);
+    // the cached DAG is validated by its size only, it must not survive a change of the point set that can be undone in size
+    if (!parents.empty()) parents = HierarchyManipulations::computeDAGup(points, effective_rule);
 
     values = std::move(values_kept);
 
